@@ -34,6 +34,8 @@ MUTANTS = [
  {"id": "probe-benign-cut-at-first-dot-byte", "kind": "benign", "edits": [(P, "    fn is_simple_char(c: char) -> bool {", "    #[allow(dead_code)]\n    fn lead(s: &str) -> &str {\n        match s.bytes().position(|b| b == b'.') {\n            Some(end) => &s[..end],\n            None => s,\n        }\n    }\n\n    fn is_simple_char(c: char) -> bool {")]},
  {"id": "probe-panic-cut-at-continuation-byte", "kind": "break", "edits": [(P, "    fn is_simple_char(c: char) -> bool {", "    #[allow(dead_code)]\n    fn lead(s: &str) -> &str {\n        let end = s.bytes().position(|b| b == 0xA9 || b == b'.').unwrap_or(s.len());\n        &s[..end]\n    }\n\n    fn is_simple_char(c: char) -> bool {")], "expect": ["PANIC"]},
  {"id": "probe-panic-cut-after-first-non-digit-byte", "kind": "break", "edits": [(P, "    fn is_simple_char(c: char) -> bool {", "    #[allow(dead_code)]\n    fn lead(s: &str) -> &str {\n        let end = s.bytes().position(|b| !b.is_ascii_digit()).unwrap_or(0);\n        &s[..end + 1]\n    }\n\n    fn is_simple_char(c: char) -> bool {")], "expect": ["PANIC"]},
+ {"id": "table-form-benign", "kind": "benign", "edits": [{"patch": "/verif/benign/dewey-1/patch.diff"}]},
+ {"id": "table-form-empty-literal-hangs", "kind": "break", "edits": [{"patch": "/verif/benign/dewey-1/patch.diff"}, (D, '("pl", 0)]', '("", 0)]')], "expect": ["TERM@dewey::DeweyVersion::new"]},
  {"id": "probe-panic-division-by-len", "kind": "break", "edits": [(S, "        let slen = input_string.len();", "        let slen = input_string.len();\n        let _avg = slen / self.entries.len();")], "expect": ["PANIC"]},
  {"id": "probe-panic-remove-first-entry", "kind": "break", "edits": [(L, "        Ok(plist)\n    }\n\n    /**\n     * Return the package name as specified", "        if plist.entries.len() > 1000000 {\n            plist.entries.remove(0);\n        }\n        Ok(plist)\n    }\n\n    /**\n     * Return the package name as specified")], "expect": []},
 ]
